@@ -555,48 +555,39 @@ impl<K: EnrKey> Enr<K> {
         enr_key: &K,
     ) -> Result<Option<Bytes>, Error> {
         check_spec_reserved_keys(key.as_ref(), &value)?;
-        let raw_key = key.as_ref().to_vec();
-        let previous_value = self.content.insert(raw_key.clone(), value);
+        // We work on this new version, allowing us to not mutate self on error.
+        let mut new_enr = self.clone();
+        let previous_value = new_enr.content.insert(key.as_ref().to_vec(), value);
         // add the new public key
         let public_key = enr_key.public();
         let mut pubkey = BytesMut::new();
         public_key.encode().as_ref().encode(&mut pubkey);
-        let previous_key = self.content.insert(public_key.enr_key(), pubkey.freeze());
+        new_enr
+            .content
+            .insert(public_key.enr_key(), pubkey.freeze());
 
         // check the size of the record
-        if self.size() > MAX_ENR_SIZE {
-            // if the size of the record is too large, revert and error
-            // revert the public key
-            if let Some(key) = previous_key {
-                self.content.insert(public_key.enr_key(), key);
-            } else {
-                self.content.remove(&public_key.enr_key());
-            }
-            // revert the content
-            if let Some(prev_value) = previous_value {
-                self.content.insert(raw_key, prev_value);
-            } else {
-                self.content.remove(key.as_ref());
-            }
+        if new_enr.size() > MAX_ENR_SIZE {
             return Err(Error::ExceedsMaxSize);
         }
         // increment the sequence number
-        self.seq = self
+        new_enr.seq = new_enr
             .seq
             .checked_add(1)
             .ok_or(Error::SequenceNumberTooHigh)?;
 
         // sign the record
-        self.sign(enr_key)?;
+        new_enr.sign(enr_key)?;
 
         // update the node id
-        self.node_id = NodeId::from(enr_key.public());
+        new_enr.node_id = NodeId::from(enr_key.public());
 
-        if self.size() > MAX_ENR_SIZE {
+        if new_enr.size() > MAX_ENR_SIZE {
             // in case the signature size changes, inform the user the size has exceeded the maximum
             return Err(Error::ExceedsMaxSize);
         }
 
+        *self = new_enr;
         Ok(previous_value)
     }
 
